@@ -331,6 +331,52 @@ def t2_key_codec(ctx):
               'digit string into an int: a string key such as "7" comes back as the integer 7')
 
 
+def t2_depth(ctx):
+    """The writer converts integer keys at some nesting depth (the top-level dictionary only, or every dictionary); the reader must convert back at the same depth. A
+    converter called from the JSON object hook (which json runs on EVERY decoded object) or calling itself on its values works at every depth; one called once on the
+    loaded / saved dictionary works at the top level only. A mismatch turns the digit-string keys of nested dictionaries into integers (or leaves nested integer keys as
+    strings)."""
+    repo = ctx.repo
+    rd = repo.func(M, '_intify_keys')
+    wr = repo.func(M, '_stringify_keys')
+    hook = repo.func(M, '_json_custom_hook')
+    enc = repo.func(M, '_CustomEncoder.default')
+    mod = repo.modules[M]
+
+    def depth_of(conv, per_object, top):
+        """'all' / 'top' / None"""
+        callers = []
+        for f_ in mod.all_funcs() if hasattr(mod, 'all_funcs') else repo.all_funcs():
+            if f_.module is not mod:
+                continue
+            for c in f_.calls():
+                tg = repo.resolve_call(f_, c)
+                if tg and any(t.node is conv.node for t in tg):
+                    callers.append((f_, c))
+        if not callers:
+            return None, None
+        kinds = set()
+        for f_, c in callers:
+            if f_.node is conv.node or any(f_.node is g_.node for p_ in per_object for g_ in repo.transparent_closure(p_)):
+                kinds.add('all')
+            elif f_.node is top.node:
+                kinds.add('top')
+            else:
+                kinds.add(None)
+        if 'all' in kinds:
+            return 'all', [c for f_, c in callers if f_.node is conv.node or any(f_.node is g_.node for p_ in per_object for g_ in repo.transparent_closure(p_))][0]
+        if kinds == {'top'}:
+            return 'top', callers[0][1]
+        return None, callers[0][1]
+    wd, wn = depth_of(wr, [enc], repo.func(M, 'save_json'))
+    rdp, rn = depth_of(rd, [hook], repo.func(M, 'load_json'))
+    ctx.tri(wd is not None and wd == rdp, wd is not None and rdp is not None and wd != rdp, 'C18.T2', rd, rn if rn is not None else '_intify_keys',
+            'integer keys are converted to strings and back at the same nesting depth (%s-level dictionaries)' % wd,
+            'the writer converts integer keys of %s, the reader converts digit-string keys of %s: string keys such as "0" of a nested dictionary come back as integers (or nested '
+            'integer keys stay strings)' % ({'top': 'the top-level dictionary only', 'all': 'every nested dictionary'}.get(wd), {'top': 'the top-level dictionary only', 'all': 'every decoded object'}.get(rdp)),
+            'the nesting depth at which integer keys are converted was not recognised (writer: %s, reader: %s)' % (wd, rdp))
+
+
 def t5_wiring(ctx):
     """save_json serialises _stringify_keys(data) with the array encoder; load_json decodes with the array hook. Three-valued: the encoder may be named by `cls=` of
     json.dump(s) or instantiated and asked to (iter)encode; the hook may be the `object_hook=` of json.load(s) or installed by the __init__ of a JSONDecoder subclass
@@ -983,6 +1029,7 @@ def run(ctx):
     ctx.part('C18.T3', t3_every_record)
     t1_array_codec(ctx)
     t2_key_codec(ctx)
+    ctx.part('C18.T2', t2_depth)
     t5_wiring(ctx)
     t3_tsv(ctx)
     ctx.part('C18.T3', t3_float_cells)
